@@ -2,6 +2,7 @@ package rules
 
 import (
 	"fmt"
+	"go/token"
 	"go/types"
 	"reflect"
 	"sort"
@@ -13,7 +14,7 @@ import (
 )
 
 func init() {
-	register("C16", "Decides only the structural clauses of the result document: (R16.1) the published JSON contract read from the struct tags of the type-checked program: every key of the frozen list is still produced by a field at the same place in the document with the same tag options and JSON kind, internal fields stay tagged '-'; additional keys are reported for information only; (R16.2) TestRunID and every RunID are assigned from a call of the UUID helper that sits inside the per-document / per-run loop body, the helper's value originates from uuid.New(), and Normalize calls all five passes on every path; (R16.3) the only store of true into TracerouteHop.Reachable is control-dependent on that hop's own IPAddress being non-empty; (R16.4–R16.6) provenance of the end-to-end statistics: packets sent is len(samples), packets received is the counter that grows with the positive-sample slice under the same `> 0` guard, and min/avg/max/jitter are computed from that slice (avg divides by its length). The numeric clauses (min <= avg <= max, loss ratio, jitter bounds, JSON round-trip equality of values) are NOT decided by this family: they quantify over arithmetic on runtime values.", runC16)
+	register("C16", "Decides only the structural clauses of the result document: (R16.1) the published JSON contract read from the struct tags of the type-checked program: every key of the frozen list is still produced by a field at the same place in the document with the same tag options and JSON kind, internal fields stay tagged '-'; additional keys are reported for information only; (R16.2) TestRunID and every RunID are assigned from a call of the UUID helper that sits inside the per-document / per-run loop body, the helper's value originates from uuid.New(), and Normalize calls all five passes on every path; (R16.3) the only store of true into TracerouteHop.Reachable is control-dependent on that hop's own IPAddress being non-empty; (R16.4–R16.6) provenance of the end-to-end statistics: packets sent is len(samples), packets received is the counter that grows with the positive-sample slice under the same `> 0` guard, and min/avg/max/jitter are functions of that slice alone (backward dataflow slice of each stored value) that pass through the same scalar post-processing steps, so that a rounding / clamping of only some of them is reported. The numeric clauses (min <= avg <= max, loss ratio, jitter bounds, JSON round-trip equality of values) are NOT decided by this family: they quantify over arithmetic on runtime values.", runC16)
 }
 
 // jsonContract: type → field → (key, omitempty, kind). Frozen from the published documentation of the result document.
@@ -426,6 +427,7 @@ func checkE2eProvenance(c *Ctx) {
 	// R16.6: every statistic is a function of the positive-sample slice alone. Backward slice of each stored value through
 	// arithmetic, phis, conversions, element loads and call arguments; it must reach S and must not reach the raw sample list.
 	nstat := 0
+	postOf, postPos := map[string]string{}, map[string]token.Pos{}
 	for _, b := range f.Blocks {
 		for _, in := range b.Instrs {
 			st, ok := in.(*ssa.Store)
@@ -442,6 +444,7 @@ func checkE2eProvenance(c *Ctx) {
 			}
 			nstat++
 			seenS, seenRaw := false, false
+			post := map[string]bool{}
 			seen := map[ssa.Value]bool{}
 			var walk func(v ssa.Value, d int)
 			walk = func(v ssa.Value, d int) {
@@ -478,8 +481,15 @@ func checkE2eProvenance(c *Ctx) {
 				case *ssa.Extract:
 					walk(y.Tuple, d+1)
 				case *ssa.Call:
+					takesS := false
 					for _, a := range y.Common().Args {
+						if a == ssa.Value(S) {
+							takesS = true
+						}
 						walk(a, d+1)
+					}
+					if _, isB := y.Common().Value.(*ssa.Builtin); !takesS && !isB {
+						post[core.CalleeName(y.Common())] = true
 					}
 				case *ssa.Alloc:
 					for _, r := range *y.Referrers() {
@@ -499,6 +509,29 @@ func checkE2eProvenance(c *Ctx) {
 			default:
 				R.OK("R16.6", key, st.Pos(), fn, name+" is a function of the positive samples only")
 			}
+			var pl []string
+			for k := range post {
+				pl = append(pl, k)
+			}
+			sort.Strings(pl)
+			postOf[name] = strings.Join(pl, ",")
+			postPos[name] = st.Pos()
+		}
+	}
+	// the property orders these statistics against each other (min <= avg <= max, jitter <= max-min): a scalar post-processing
+	// step (rounding, clamping, unit change) applied to some of them and not to the others does not preserve those relations
+	ref, refSet := "", false
+	for _, name := range []string{"Min", "Max", "Avg", "Jitter"} {
+		p, ok := postOf[name]
+		if !ok {
+			continue
+		}
+		if !refSet {
+			ref, refSet = p, true
+			continue
+		}
+		if p != ref {
+			R.Fail("R16.6", fn+"#uniform-post-processing["+name+"]", postPos[name], fn, "the statistic "+name+" passes through ["+p+"] after aggregation while Min passes through ["+ref+"]: a scalar step applied to only some of the statistics (rounding, clamping) breaks min <= avg <= max / jitter <= max-min for samples off its grid")
 		}
 	}
 	R.Floor("R16.6:statistics", nstat, 4)
